@@ -201,8 +201,9 @@ example : fnBody Quirks.pinned "BITCNT".toList [.int 0xFF00] = .ok (.int 8) → 
 
 /-! ## findings on the pinned tree: proved negations (witnesses are replayed on the real binary every run) -/
 
-/-- `!=` is documented as alias of `<>` and is not an entry of `Operators[]` -/
-theorem C08_finding_ne_alias_missing : idxOf ['!', '='] = 0 := by decide
+/-- `!=`, documented as alias of `<>`, is an entry of the regenerated `Operators[]` with the rank of `<>` (it was missing on the
+pinned tree: finding `ne-alias-missing`, repaired) -/
+theorem C08_ne_alias : idxOf ['!', '='] ≠ 0 ∧ prioOf (idxOf ['!', '=']) = prioOf (idxOf ['<', '>']) := by decide
 
 /-- `-2^63 / -1`: the body runs into undefined behaviour where the documented wrapped value exists -/
 theorem C08_finding_int_min_div : intBody Quirks.pinned ['/'] intMin (-1) = .error .ub ∧
